@@ -92,6 +92,23 @@ class C09(Prop):
                 yield {"kind": "runs2", "programs": [prog_a, [{"name": "g0", "nodes": [dict(na, dataOuts=perm)], "bound": []}]],
                        "values": [["x", rng.randint(0, 5)]], "backend": rng.choice(["mem", "lru2", "disk"]), "runner": rng.choice(["sync", "async"])}
                 continue
+            if 0.26 <= r < 0.30:
+                # (a) a cacheable node WITHOUT outputs and a cacheable gate deciding nothing: their stored entry is an empty dict, still a hit;
+                # (b) the same node called with equal-but-distinct arguments (1 / True, 0 / False): different arguments, different entries
+                v0 = rng.choice([0, 1])
+                nodes = [{"name": "audit", "kind": "fn", "params": [["x", None]], "dataOuts": [], "body": {"b": "tag", "t": "audit"}, "cache": True},
+                         {"name": "gt", "kind": "route", "params": [["x", None]], "targets": ["big", "__END__"], "multiTarget": False, "fallback": None,
+                          "defaultOpen": rng.random() < 0.5, "body": {"b": "table", "rows": [[7, "big"]], "dflt": None}, "cache": True},
+                         {"name": "big", "kind": "fn", "params": [["x", None]], "dataOuts": ["b"], "body": {"b": "tag", "t": "big"}},
+                         {"name": "lab", "kind": "fn", "params": [["x", None]], "dataOuts": ["label"], "body": {"b": "tag", "t": "lab"}, "cache": True}]
+                rng.shuffle(nodes)
+                seq = [v0, v0, bool(v0), v0, bool(v0)]
+                if rng.random() < 0.5:
+                    seq = [bool(v0), bool(v0), v0, bool(v0)]
+                yield {"kind": "runs", "program": [{"name": "g0", "nodes": nodes, "bound": []}],
+                       "runs": [{"values": [["x", v]], "runner": rng.choice(["sync", "async", "async"])} for v in seq[: rng.randint(3, len(seq))]],
+                       "backend": rng.choice(["mem", "mem", "lru4", "disk"])}
+                continue
             if 0.23 <= r < 0.26:
                 # two DIFFERENT definitions without retrievable source whose bytecode differs only in a referenced name
                 m1, m2 = rng.sample(["upper", "lower", "title", "swapcase"], 2)
